@@ -36,5 +36,10 @@ func File(file string) iter.Seq2[*BED, error] {
 			return
 		}
 		defer f.Close()
+		for bed, err := range Reader(f) {
+			if !yield(bed, err) {
+				break
+			}
+		}
 	}
 }
